@@ -451,6 +451,19 @@ def r12_header_names(ctx):
     maps = [x for x in walk_shallow(md) if isinstance(x, ast.Assign) and isinstance(x.value, (ast.DictComp, ast.Call)) and "enumerate(" in unparse(x.value) and "chain(" in unparse(x.value)]
     ok = len(maps) == 1 and any(isinstance(g_, (ast.GeneratorExp, ast.ListComp)) and g_.generators[0].ifs for g_ in ast.walk(maps[0].value) if isinstance(g_, (ast.GeneratorExp, ast.ListComp)))
     ctx.ob("C13.R12", ROWS, "DropRows.make_drop_row_args", maps[0] if maps else md, "the name -> position map handed to KeepDense lists only the columns that survive the drop", ok, stmt="kept names only")
+    # the header map SHOWN by the reduced row gives every kept name its position among the kept COLUMNS (old position -> new position), not its rank among the kept names
+    # in the order the original map lists them
+    ext = [x for x in walk_shallow(md) if isinstance(x, ast.Assign) and isinstance(x.targets[0], ast.Name) and isinstance(x.value, (ast.DictComp, ast.Call)) and
+           any(isinstance(b, ast.Return) and isinstance(b.value, ast.Tuple) and unparse(b.value.elts[-1]) == x.targets[0].id for b in ast.walk(md))]
+    okx = False
+    for x in ext:
+        v = x.value
+        if isinstance(v, ast.DictComp) and isinstance(v.value, ast.Subscript) and isinstance(v.value.value, ast.Name) and isinstance(v.generators[0].target, ast.Tuple) and len(v.generators[0].target.elts) == 2:
+            pos_var = unparse(v.generators[0].target.elts[1])
+            m_defs = assigned_value(md, v.value.value.id)
+            okx = unparse(v.value.slice) == pos_var and bool(m_defs) and all(unparse(d_) in ("dict(zip(indexes, count()))", "{i: j for j, i in enumerate(indexes)}") for d_ in m_defs)
+    ctx.ob("C13.R12", ROWS, "DropRows.make_drop_row_args", ext[0] if ext else md, "the reduced row's header map sends each kept name to the new position OF ITS COLUMN (looked up by the column's old position)", okx,
+           stmt="external headers by column position")
 
 
 def r13_forwarding_getattr(ctx, rule="C13.R13"):
@@ -644,7 +657,8 @@ def _drop_member(tree, cname, member):
     cls.body = keep
 
 
-def r16_position_changing_views(ctx, dense, rule="C13.R16"):
+def r16_position_changing_views(ctx, dense=None, rule="C13.R16"):
+    dense = dense if dense is not None else ctx.model.subclasses(ctx.model.cls(PRIM, "Dense_"))
     """a dense view that leaves columns out moves the positions of the columns behind them: the header map it shows, and the way it resolves a header
     name, must be its own -- the attribute forwarding of Dense_ would hand out the map of the full row."""
     ctx.rule(rule, "dense views that drop columns (their __len__ is not the wrapped row's) define their own `headers` (slot or property, not the forwarded map of the full row) "
@@ -670,12 +684,21 @@ def r16_position_changing_views(ctx, dense, rule="C13.R16"):
         K = gi.args.args[1].arg
         arith = [x for x in ast.walk(gi) if (isinstance(x, ast.AugAssign) and isinstance(x.target, ast.Name) and x.target.id == K) or
                  (isinstance(x, ast.Compare) and unparse(x.left) == K and isinstance(x.ops[0], (ast.Lt, ast.LtE, ast.Gt, ast.GtE)))]
-        by_map = any(isinstance(x, ast.Call) and call_tail(x) == "get" and x.args and unparse(x.args[0]) == K for x in ast.walk(gi)) or \
-            any(isinstance(x, ast.Subscript) and is_self_attr(x.value) and unparse(x.slice) == K for x in ast.walk(gi))
+        by_map = any(isinstance(x, ast.Call) and call_tail(x) == "get" and x.args and unparse(x.args[0]) == K and isinstance(x.func, ast.Attribute) and is_self_attr(x.func.value) for x in ast.walk(gi)) \
+            and not arith   # one look-up table for names and positions alike, no position arithmetic at all
         from ..util import all_guards
+        # either the arithmetic sits under a type test itself, or an earlier type-test branch handles names completely: its body ENDS in return / raise on every path
+        # (a name translated to a position must not fall through into the arithmetic meant for positions of the VIEW)
+        def terminates(body):
+            last = body[-1] if body else None
+            if isinstance(last, (ast.Return, ast.Raise)):
+                return True
+            if isinstance(last, ast.If):
+                return bool(last.orelse) and terminates(last.body) and terminates(last.orelse)
+            return False
         typed = all(any("__class__" in unparse(t) or "isinstance" in unparse(t) for t, pol in all_guards(x, gi)) or
-                    any(isinstance(p_, ast.If) and ("__class__" in unparse(p_.test) or "isinstance" in unparse(p_.test)) and p_.lineno < x.lineno and
-                        any(isinstance(r, (ast.Return, ast.Raise)) for r in ast.walk(p_)) for p_ in gi.body) for x in arith)
+                    any(isinstance(p_, ast.If) and ("__class__" in unparse(p_.test) or "isinstance" in unparse(p_.test)) and p_.lineno < x.lineno and terminates(p_.body)
+                        for p_ in gi.body) for x in arith)
         ctx.ob(rule, ROWS, f"{c.name}.__getitem__", gi, "a header name is told apart from a position before positions are compared or shifted", by_map or (bool(arith) and typed),
                stmt=f"{c.name}.__getitem__ names")
     ctx.floor(rule, "dense views that drop columns", n, 2)
@@ -688,6 +711,8 @@ def _unguarded_fast_iter(tree):
 
 
 CONTROLS = [
+    ("a name's position falls through into the view's index shift", ROWS, M.delete_stmt("DropOne.__getitem__", lambda st: isinstance(st, ast.Return), nth=0), "C13.R16"),
+    ("kept names numbered in the order the header map lists them", ROWS, M.replace_expr("DropRows.make_drop_row_args", "{h: external_indexes[i] for h, i in headers if i in external_indexes}", "dict(zip((h for h, i in headers if selects[i]), count()))"), "C13.R12"),
     ("sparse one-hot keyed by the bit", ROWS, M.replace_stmt("EncodeCatRows._encode_collection", M.text_has("o[f'{_k}_{i}'] = v"), "if i != 0: o[f'{_k}_{v}'] = i"), "C13.R17"),
     ("string keys handed to catset as they are", ROWS, M.replace_expr("EncodeCatRows._encode_collection", "k if isinstance(k, list) else [k]", "k"), "C13.R17"),
     ("dense rows equal strings of their characters", PRIM, M.delete_stmt("Dense_.__eq__", M.text_has("isinstance(o, (str, bytes, Sparse))")), "C13.R11"),
